@@ -142,7 +142,7 @@ func (x *Exec) instr(fr *frame, ins ssa.Instruction, st *State, r string) (strin
 		x.setVal(fr, i, Val{s[0], s[1]})
 	case *ssa.Store:
 		if _, isFA := i.Addr.(*ssa.FieldAddr); isFA {
-			x.guardedAccess(fr, i, i.Addr, st, r)
+			x.guardedAccess(fr, i, i.Addr, st, r, true)
 		}
 		p := x.val(fr, i.Addr)
 		r = x.guard(fr, ins, r, not(eq(p[0].T, "0")), "nil-deref")
@@ -187,10 +187,10 @@ func (x *Exec) instr(fr *frame, ins ssa.Instruction, st *State, r string) (strin
 			_, _ = x.callCommon(fr, d.call, &d.call.Call, st, and(r, d.reach), true)
 		}
 	case *ssa.Lookup:
-		x.guardedAccess(fr, i, i.X, st, r)
+		x.guardedAccess(fr, i, i.X, st, r, false)
 		r = x.lookup(fr, i, st, r)
 	case *ssa.MapUpdate:
-		x.guardedAccess(fr, i, i.Map, st, r)
+		x.guardedAccess(fr, i, i.Map, st, r, true)
 		m := x.val(fr, i.Map)[0].T
 		r = x.guard(fr, ins, r, not(eq(m, "0")), "nil-map")
 		fam := vc.mapFamily(i.Map.Type().Underlying().(*types.Map))
@@ -205,7 +205,7 @@ func (x *Exec) instr(fr *frame, ins ssa.Instruction, st *State, r string) (strin
 		x.rangeInit(fr, i, st, r)
 	case *ssa.Next:
 		if rg, ok := i.Iter.(*ssa.Range); ok {
-			x.guardedAccess(fr, i, rg.X, st, r)
+			x.guardedAccess(fr, i, rg.X, st, r, false)
 		}
 		x.next(fr, i, st, r)
 	case *ssa.Send:
@@ -379,7 +379,7 @@ func (x *Exec) unop(fr *frame, i *ssa.UnOp, st *State, r string) string {
 	switch i.Op {
 	case token.MUL: // load
 		if _, isFA := i.X.(*ssa.FieldAddr); isFA {
-			x.guardedAccess(fr, i, i.X, st, r)
+			x.guardedAccess(fr, i, i.X, st, r, false)
 		}
 		r = x.guard(fr, i, r, not(eq(v[0].T, "0")), "nil-deref")
 		l := x.vc.ls.of(i.Type())
@@ -524,13 +524,20 @@ func (x *Exec) globalConst(g *ssa.Global) (Val, bool) {
 
 // guardedAccess: `guarded_by <mutex field>: <field>, ...` on the top-level contract makes every
 // access to the named fields of the receiver an obligation: the mutex is held at that point.
-func (x *Exec) guardedAccess(fr *frame, ins ssa.Instruction, v ssa.Value, st *State, r string) {
-	if !fr.top || fr.c == nil || len(fr.c.Raw["guarded_by"]) == 0 {
+func (x *Exec) guardedAccess(fr *frame, ins ssa.Instruction, v ssa.Value, st *State, r string, write bool) {
+	if !fr.top || fr.c == nil || len(fr.c.Raw["guarded_by"]) == 0 || len(fr.fn.Params) == 0 {
 		return
 	}
 	base, field := fieldOrigin(v)
-	if base == nil || len(fr.fn.Params) == 0 || base != ssa.Value(fr.fn.Params[0]) {
+	if base == nil {
 		return
+	}
+	// a field of the receiver, or (listed as Type.field) a field of an object of that type, which
+	// the method reaches through the guarded structure
+	onRecv := base == ssa.Value(fr.fn.Params[0])
+	tname := ""
+	if nt, ok := deref(base.Type()).(*types.Named); ok {
+		tname = nt.Obj().Name()
 	}
 	for _, g := range fr.c.Raw["guarded_by"] {
 		k := strings.Index(g, ":")
@@ -543,17 +550,30 @@ func (x *Exec) guardedAccess(fr *frame, ins ssa.Instruction, v ssa.Value, st *St
 		}
 		for _, f := range strings.Split(g[k+1:], ",") {
 			f = strings.TrimSpace(f)
+			ftype := ""
 			if j := strings.LastIndex(f, "."); j >= 0 {
-				f = f[j+1:]
+				ftype, f = f[:j], f[j+1:]
 			}
 			if f != field {
+				continue
+			}
+			if ftype == "" || ftype == fr.c.Params[0] {
+				if !onRecv {
+					continue
+				}
+			} else if ftype != tname {
 				continue
 			}
 			recv := x.val(fr, fr.fn.Params[0])
 			off, _ := x.fieldAt(fr.fn.Params[0].Type(), mu)
 			key := lockKey(x.vc, Val{recv[0], ic(add(recv[1].T, itoa(int64(off))))})
 			x.nGuarded++
-			x.vc.oblige(fmt.Sprintf("%s#guarded:%s-under-%s.%d", x.eng.fnKey(fr.fn), field, mu, x.nGuarded), "guarded", r, eq(ghost(st, key), "1"), x.eng.pos(ins.Pos()))
+			// a write needs the lock exclusively (1); a read may hold it shared (2, RLock)
+			cond := eq(ghost(st, key), "1")
+			if !write {
+				cond = or(cond, eq(ghost(st, key), "2"))
+			}
+			x.vc.oblige(fmt.Sprintf("%s#guarded:%s-under-%s.%d", x.eng.fnKey(fr.fn), field, mu, x.nGuarded), "guarded", r, cond, x.eng.pos(ins.Pos()))
 		}
 	}
 }
